@@ -28,14 +28,15 @@ func init() {
 // runC16 is the shard driver: the register of a process cannot be reset, so
 // every history runs in its own child process (this binary, sub-mode C16H).
 func runC16(c *mon.Ctx) {
-	c.Rule("one CHILD PROCESS per history (the register cannot be reset). A history is a seeded random sequence of 12..45 operations over: RegisterProfile(new name, P1- or P2-based - the latter also through a claims type embedding TWO structs, a mixin without profile field first and P2Claims second -, sharing the JSON profile member of its base) / re-register an existing name (base profiles, earlier extras) / register a profile whose claims type has no profile field / has no json tag on it (then register the same name properly) / whose profile field is identified by its name and followed by other fields (register snapshot must record THAT field's JSON member), NewClaims(registered | unregistered), DecodeClaimsFromCBOR / JSON (token of any known or not-yet-registered profile, documents declaring two profiles at once under the two profile members, and documents carrying a profile name under the OTHER base profile's member), mutate one instance (setters, writes through its pointer fields and byte slices, container Add/Replace, canonical-name overwrite), observe another. 0..8 extra profiles per history. Offline-style trace checker with model = set of successfully registered names: after EVERY registration attempt the register snapshot (hook H1) must equal the model (failed attempt: unchanged; successful: grown by exactly that entry) and a probe battery (NewClaims + CBOR decode + JSON decode for every name of the universe, registered or not) must be unchanged for every name other than the one just registered and must follow the model for that one; every created/decoded instance is a new pointer with its own container / profile pointers and its observation is unaffected by any mutation of another instance; every JSON dispatch is repeated 40x and all repetitions must agree on (error?, type, canonical profile, observation); hook H3 records the register visit order of each dispatch. Inconclusive if fewer than 2 distinct visit orders were seen. distinct_nontrivial = distinct operation-kind sequences")
+	c.Rule("one CHILD PROCESS per history (the register cannot be reset). A history is a seeded random sequence of 12..45 operations over: RegisterProfile(new name, P1- or P2-based - the latter also through a claims type embedding TWO structs, a mixin without profile field first and P2Claims second -, sharing the JSON profile member of its base) / re-register an existing name (base profiles, earlier extras) / register a profile whose claims type has no profile field / has no json tag on it (then register the same name properly) / whose profile field is identified by its name and followed by other fields (register snapshot must record THAT field's JSON member), NewClaims(registered | unregistered), DecodeClaimsFromCBOR / JSON (token of any known or not-yet-registered profile, documents declaring two profiles at once under the two profile members, and documents carrying a profile name under the OTHER base profile's member), mutate one instance (setters, writes through its pointer fields and byte slices, container Add/Replace, canonical-name overwrite), observe another. 0..8 extra profiles per history. Offline-style trace checker with model = set of successfully registered names: after EVERY registration attempt the register snapshot (hook H1) must equal the model (failed attempt: unchanged; successful: grown by exactly that entry) and a probe battery (NewClaims + CBOR decode + JSON decode for every name of the universe, registered or not) must be unchanged for every name other than the one just registered and must follow the model for that one; every created/decoded instance is a new pointer with its own container / profile pointers and its observation is unaffected by any mutation of another instance; every JSON dispatch is repeated 40x and all repetitions must agree on (error?, type, canonical profile, observation); hook H3 records the register visit order of each dispatch. An operation that is in flight for 20 s while its process uses no CPU ends the process (goroutine dump) and is reported as call-blocked-forever. Inconclusive if fewer than 2 distinct visit orders were seen. distinct_nontrivial = distinct operation-kind sequences")
 	self, err := os.Executable()
 	if err != nil {
 		c.Inconclusive("cannot locate own executable: " + err.Error())
 		return
 	}
 	n := c.N(1600, 6400) // thorough: race-detector build, one child process per history
-	for i := 0; i < n; i++ {
+	blocked := 0
+	for i := 0; i < n && blocked < 3; i++ {
 		hid := int64(i)*int64(c.NShards) + int64(c.Shard)
 		dir := filepath.Join(c.OutDir, fmt.Sprintf("c16-%d-%d", c.Shard, i))
 		_ = os.MkdirAll(dir, 0o755)
@@ -50,6 +51,13 @@ func runC16(c *mon.Ctx) {
 		switch {
 		case timedOut:
 			c.Inconclusive(fmt.Sprintf("history %d hit the wall-clock watchdog", hid))
+		case !found && strings.Contains(string(out), "fatal error: call-blocked-forever"):
+			head := string(out)
+			if len(head) > 6000 {
+				head = head[:6000]
+			}
+			blocked++
+			c.Violation("C16/call-blocked-forever", fmt.Sprintf("an operation of history %d (registration / lookup / decode) never returned: the process was blocked without using CPU (goroutine dump in the replay)", hid), map[string]any{"history": hid, "output_head": head})
 		case !found:
 			tail := string(out)
 			if len(tail) > 3000 {
@@ -151,6 +159,12 @@ func obsString(x psatoken.IClaims) string {
 }
 
 func runC16History(c *mon.Ctx) {
+	// every operation of a history takes micro- to milliseconds; one that is in
+	// flight for 10 s while the process uses no CPU waits for something nobody
+	// will provide (a lock left locked) - the process then ends itself with a
+	// goroutine dump and the parent reports it
+	mon.SetBlockedWall(20 * time.Second)
+	mon.StartWatchdog(60*time.Second, "cpu-bound-exceeded")
 	hid := int64(c.Shard)
 	g := model.NewGen(c.Seed*99991 + hid*7 + 3)
 	var trace []string
@@ -192,7 +206,12 @@ func runC16History(c *mon.Ctx) {
 			if i >= 2 && g.R.Intn(3) == 0 {
 				base = 3
 			}
-			cands = append(cands, mk(fmt.Sprintf("http://example.com/h%d/p%d", hid%1000, i), base))
+			name := fmt.Sprintf("http://example.com/h%d/p%d", hid%1000, i)
+			if i == 3 || i == 5 {
+				// a character a JSON encoder may write as \u0026 (same string value)
+				name += "?family=a&rev=2"
+			}
+			cands = append(cands, mk(name, base))
 		} else {
 			cands = append(cands, mk(fmt.Sprintf("PSA_IOT_PROFILE_1_H%d", i), 1))
 		}
@@ -384,7 +403,8 @@ func runC16History(c *mon.Ctx) {
 	for step := 0; step < nOps; step++ {
 		opk := g.R.Intn(10)
 		stop := false
-		if pn, pv, fr := mon.Guard(func() {
+		mon.CallBegin(fmt.Sprintf("history-operation-kind-%d", opk))
+		pn, pv, fr := mon.Guard(func() {
 			switch {
 			case opk <= 2: // registration attempts
 				kind := g.R.Intn(5)
@@ -727,7 +747,9 @@ func runC16History(c *mon.Ctx) {
 					stop = true
 				}
 			}
-		}); pn {
+		})
+		mon.CallEnd()
+		if pn {
 			fail("panic/"+mon.PanicKey(fr), "panic during a registry history", map[string]any{"panic": pv, "frame": fr})
 			return
 		}
